@@ -405,13 +405,22 @@ class Run:
         pt = list(x.data)
         v = self.fu(pt)[0]
         self.fcalls.append((pt, v))
+        self._scribble(x)
         return v
+
+    def _scribble(self, x):
+        """A user callable that uses the array it is given as scratch space (legitimate: it is documented to receive a
+        copy).  Overwrites every entry with a value far outside the box."""
+        if getattr(self, "mutate_args", False) and isinstance(x, SArr) and x.flags.writeable:
+            for i in range(len(x.data)):
+                x.data[i] = SReal.of(-4096)
 
     def jac(self, x, *args):
         self._fault("jac", len(self.gcalls))
         pt = list(x.data)
         v = self.gu(pt)
         self.gcalls.append((pt, v))
+        self._scribble(x)
         if getattr(self, "jac_buffer", False):
             # a user gradient that fills one preallocated work array and returns it every time (legitimate: the
             # package must not keep a reference to what the user's callable returned)
